@@ -300,8 +300,8 @@ class Evaluator:
             if isinstance(s.value, ast.Constant):
                 return
             self.ev(s.value)
-        elif isinstance(s, ast.Pass):
-            return
+        elif isinstance(s, (ast.Pass, ast.Assert)):
+            return          # normal-path semantics: a failing assertion ends the evaluation with an exception, it changes no value
         elif isinstance(s, ast.Break):
             raise _Break()
         elif isinstance(s, ast.Continue):
